@@ -133,6 +133,51 @@ pub struct Plan {
     /// OS thread
     #[serde(default)]
     pub held: Vec<(usize, usize, u8)>,
+    /// (client, operation, what, value): ambient process state changed just before that operation —
+    /// "stderr": file descriptor 2 becomes a pipe nobody reads (writes fail with EPIPE);
+    /// "rlimit_stack": the soft RLIMIT_STACK becomes `value` KiB; "cwd": the working directory becomes
+    /// "/" (value 0) or the temp directory (value 1)
+    #[serde(default)]
+    pub ambient: Vec<(usize, usize, String, u64)>,
+}
+
+#[repr(C)]
+struct RLimit {
+    cur: u64,
+    max: u64,
+}
+extern "C" {
+    fn pipe(fds: *mut i32) -> i32;
+    fn dup2(old: i32, new: i32) -> i32;
+    fn close(fd: i32) -> i32;
+    fn getrlimit(resource: i32, r: *mut RLimit) -> i32;
+    fn setrlimit(resource: i32, r: *const RLimit) -> i32;
+}
+
+fn apply_ambient(what: &str, value: u64) {
+    match what {
+        "stderr" => unsafe {
+            let mut fds = [0i32; 2];
+            if pipe(fds.as_mut_ptr()) == 0 {
+                close(fds[0]);
+                dup2(fds[1], 2);
+                close(fds[1]);
+            }
+        },
+        "rlimit_stack" => unsafe {
+            const RLIMIT_STACK: i32 = 3;
+            let mut r = RLimit { cur: 0, max: 0 };
+            if getrlimit(RLIMIT_STACK, &mut r) == 0 {
+                let want = value * 1024;
+                r.cur = if want <= r.max { want } else { r.max };
+                setrlimit(RLIMIT_STACK, &r);
+            }
+        },
+        "cwd" => {
+            let _ = std::env::set_current_dir(if value == 0 { std::path::PathBuf::from("/") } else { std::env::temp_dir() });
+        }
+        _ => {}
+    }
 }
 
 enum HeldRes {
@@ -263,6 +308,8 @@ pub struct Probes {
     pub calls_while_unwinding: u64,
     #[serde(default)]
     pub env_changes: u64,
+    #[serde(default)]
+    pub ambient_changes: u64,
     #[serde(default)]
     pub docs_edited_in_place: u64,
     #[serde(default)]
@@ -673,6 +720,10 @@ fn run_client_op(w: &Arc<World>, c: usize, j: usize) {
         apply_env(name, value);
         w.probes.lock().unwrap().env_changes += 1;
     }
+    for (_, _, what, value) in w.plan.ambient.iter().filter(|(cc, jj, _, _)| *cc == c && *jj == j) {
+        apply_ambient(what, *value);
+        w.probes.lock().unwrap().ambient_changes += 1;
+    }
     let hold = w.plan.held.iter().find(|(cc, jj, _)| *cc == c && *jj == j).map(|(_, _, m)| (c, j, *m));
     let body = move || {
         if depth_kib >= LOW_STACK {
@@ -786,6 +837,10 @@ pub fn execute(plan: Plan, full: bool) -> RunResult {
     install_panic_hook();
     for (name, value) in &plan.env {
         apply_env(name, value);
+    }
+    // client usize::MAX: the process was started that way
+    for (_, _, what, value) in plan.ambient.iter().filter(|(cc, _, _, _)| *cc == usize::MAX) {
+        apply_ambient(what, *value);
     }
     let values: Vec<Value> = plan.contents.iter().map(|t| gen::content_value(t)).collect();
     if sim_repr(plan.repr) {
@@ -1593,6 +1648,16 @@ pub fn gen_corpus_with(seed: u64, n_fam: usize, q_per_fam: usize, adv: bool) -> 
                     }
                 }
             }
+            // one query whose pattern is not a regular expression (the error path of match/search)
+            {
+                let bad = ["(", "[a", "*a", "a{2,1}"][(f / 2) % 4];
+                let q = format!("$.elems[?{}(@, '{}')]", if f % 4 == 0 { "match" } else { "search" }, bad);
+                if !queries.contains(&q) {
+                    queries.push(q);
+                    fq.push(queries.len() - 1);
+                    q_other_family.push(f);
+                }
+            }
             // pattern pairs of equal length and equal h*31+c hash, over strings that tell them apart
             let f0 = if qrng.chance(1, 2) { "match" } else { "search" };
             let (pa, pb) = if qrng.chance(1, 2) { ("Aa", "BB") } else { ("AaBB", "BBAa") };
@@ -1990,6 +2055,19 @@ pub fn gen_plan_opt(c: &Corpus, run_seed: u64, allow_stress: bool) -> (Plan, Pla
             }
         }
     }
+    // one run in ten: the process' ambient state changes under the callers' feet
+    let mut ambient: Vec<(usize, usize, String, u64)> = vec![];
+    if rng.chance(1, 8) {
+        for _ in 0..(1 + rng.below(2)) {
+            // half of the time the process was started that way
+            let (cl, j) = if rng.chance(1, 2) { (usize::MAX, 0) } else { let cl = rng.below(n_clients); (cl, rng.below(clients[cl].len())) };
+            match rng.below(3) {
+                0 => ambient.push((cl, j, "stderr".to_string(), 0)),
+                1 => ambient.push((cl, j, "rlimit_stack".to_string(), *rng.pick(&[256u64, 512, 1024, 65536]))),
+                _ => ambient.push((cl, j, "cwd".to_string(), rng.below(2) as u64)),
+            }
+        }
+    }
     // one run in twelve: one to three calls are made while the caller is unwinding
     let mut unwinding_ops: Vec<(usize, usize)> = vec![];
     if !stress && rng.chance(1, 12) {
@@ -2066,6 +2144,7 @@ pub fn gen_plan_opt(c: &Corpus, run_seed: u64, allow_stress: bool) -> (Plan, Pla
         env,
         env_changes,
         held,
+        ambient,
     };
     // fillers select nothing whatever the document (their names occur nowhere), so they need no cold
     // process each; a sample of them is computed cold anyway, to check exactly that assumption
@@ -2236,6 +2315,8 @@ fn remove_op(plan: &Plan, c: usize, from: usize, to: usize) -> Plan {
     p.alloc_faults = plan.alloc_faults.iter().filter_map(|(cc, j, k)| if *cc != c { Some((*cc, *j, *k)) } else if *j >= from && *j < to { None } else if *j >= to { Some((*cc, j - (to - from), *k)) } else { Some((*cc, *j, *k)) }).collect();
     p.unwinding_ops = plan.unwinding_ops.iter().filter_map(|(cc, j)| if *cc != c { Some((*cc, *j)) } else if *j >= from && *j < to { None } else if *j >= to { Some((*cc, j - (to - from))) } else { Some((*cc, *j)) }).collect();
     p.held = plan.held.iter().filter_map(|(cc, j, m)| if *cc != c { Some((*cc, *j, *m)) } else if *j >= from && *j < to { None } else if *j >= to { Some((*cc, j - (to - from), *m)) } else { Some((*cc, *j, *m)) }).collect();
+    // an ambient change outlives its operation: when the operation goes, it moves to the next one
+    p.ambient = plan.ambient.iter().map(|(cc, j, n, v)| if *cc != c { (*cc, *j, n.clone(), *v) } else if *j >= to { (*cc, j - (to - from), n.clone(), *v) } else if *j >= from { (*cc, from.min(p.clients[c].len().saturating_sub(1)), n.clone(), *v) } else { (*cc, *j, n.clone(), *v) }).collect();
     p.env_changes = plan.env_changes.iter().filter_map(|(cc, j, n, v)| if *cc != c { Some((*cc, *j, n.clone(), v.clone())) } else if *j >= from && *j < to { None } else if *j >= to { Some((*cc, j - (to - from), n.clone(), v.clone())) } else { Some((*cc, *j, n.clone(), v.clone())) }).collect();
     p.exit_calls = plan.exit_calls.iter().map(|(cc, r)| if *cc != c { (*cc, *r) } else if *r >= to { (*cc, r - (to - from)) } else if *r >= from { (*cc, from) } else { (*cc, *r) }).collect();
     // faults refer to op indices: shift or drop
@@ -2263,6 +2344,7 @@ fn remove_client(plan: &Plan, c: usize) -> Plan {
     p.alloc_faults = plan.alloc_faults.iter().filter(|(cc, _, _)| *cc != c).map(|(cc, j, k)| (if *cc > c { cc - 1 } else { *cc }, *j, *k)).collect();
     p.unwinding_ops = plan.unwinding_ops.iter().filter(|(cc, _)| *cc != c).map(|(cc, j)| (if *cc > c { cc - 1 } else { *cc }, *j)).collect();
     p.held = plan.held.iter().filter(|(cc, _, _)| *cc != c).map(|(cc, j, m)| (if *cc > c { cc - 1 } else { *cc }, *j, *m)).collect();
+    p.ambient = plan.ambient.iter().filter(|(cc, _, _, _)| *cc != c).map(|(cc, j, n, v)| (if *cc > c { cc - 1 } else { *cc }, *j, n.clone(), *v)).collect();
     p.env_changes = plan.env_changes.iter().filter(|(cc, _, _, _)| *cc != c).map(|(cc, j, n, v)| (if *cc > c { cc - 1 } else { *cc }, *j, n.clone(), v.clone())).collect();
     p.exit_calls = plan.exit_calls.iter().filter(|(cc, _)| *cc != c).map(|(cc, r)| (if *cc > c { cc - 1 } else { *cc }, *r)).collect();
     p.deep_stack = plan.deep_stack.iter().filter(|(cc, _, _)| *cc != c).map(|(cc, j, k)| (if *cc > c { cc - 1 } else { *cc }, *j, *k)).collect();
@@ -2332,6 +2414,11 @@ pub fn minimise(plan: &Plan, table: &mut ColdTable, class: &str, kind: &str, bud
     if !cur.held.is_empty() {
         let mut cand = cur.clone();
         cand.held.clear();
+        try_cand(cand, &mut cur, &mut spent, table);
+    }
+    if !cur.ambient.is_empty() {
+        let mut cand = cur.clone();
+        cand.ambient.clear();
         try_cand(cand, &mut cur, &mut spent, table);
     }
     if !cur.env.is_empty() || !cur.env_changes.is_empty() {
@@ -2726,6 +2813,7 @@ pub fn drive(tier_name: &str, seed: u64, workers: usize) -> i32 {
             if !plan.env.is_empty() {
                 *probes_sum.entry("runs_with_a_varied_environment").or_insert(0) += 1;
             }
+            *probes_sum.entry("ambient_process_state_changes").or_insert(0) += r.probes.ambient_changes;
             *probes_sum.entry("documents_updated_in_place_by_the_caller").or_insert(0) += r.probes.docs_edited_in_place;
             *probes_sum.entry("result_sets_kept_and_looked_at_later").or_insert(0) += r.probes.results_looked_at_later;
             *probes_sum.entry("result_sets_looked_at_on_another_thread").or_insert(0) += r.probes.results_looked_at_on_another_thread;
@@ -2921,6 +3009,7 @@ pub fn drive(tier_name: &str, seed: u64, workers: usize) -> i32 {
             "allocation_failure": {"what": "while an operation is inside the library the allocator refuses blocks of at least 256 B - 1 MiB; the process may abort (the run is then repeated without the fault) or the operation completes and is judged as usual", "operations_planned": alloc_fault_ops, "blocks_refused_in_runs_that_completed": probes_sum.get("allocations_refused_in_runs_that_completed").copied().unwrap_or(0), "runs_ended_by_the_fault_and_repeated_without_it": ALLOC_ABORTS.load(std::sync::atomic::Ordering::Relaxed)},
             "call_while_unwinding": {"what": "an operation is made from a Drop while a panic of the caller's own unwinds (std::thread::panicking() is true)", "calls": probes_sum.get("calls_made_while_the_caller_is_unwinding").copied().unwrap_or(0)},
             "environment": {"what": "environment variables (RUST_MIN_STACK, RUST_BACKTRACE, RUST_LOG, LANG, LC_ALL, TZ, HOME, TMPDIR, NO_COLOR, RAYON_NUM_THREADS, JSONPATH_*) differ from run to run and are changed between operations; the cold oracle runs in the driver's own environment", "runs_with_a_varied_environment": probes_sum.get("runs_with_a_varied_environment").copied().unwrap_or(0), "changes_between_operations": probes_sum.get("environment_variables_changed_between_calls").copied().unwrap_or(0)},
+            "ambient_process_state": {"what": "just before an operation the run process' standard error becomes a pipe nobody reads, its soft RLIMIT_STACK is lowered (256 KiB - 1 MiB) or raised, or its working directory changes", "changes": probes_sum.get("ambient_process_state_changes").copied().unwrap_or(0)},
             "not_applicable": "network, disk: the library has no such surface"
         },
         "policies": policies,
